@@ -13744,6 +13744,10 @@ LdCalculator_get_r2_array(LdCalculator *self, PyObject *args, PyObject *kwds)
         PyErr_SetString(PyExc_ValueError, "max_sites cannot be negative");
         goto out;
     }
+    /* No more values than there are sites can be returned; a larger request
+     * must not make the size of the buffer below wrap around. */
+    max_sites = TSK_MIN(max_sites,
+        (Py_ssize_t) tsk_treeseq_get_num_sites(self->ld_calc->tree_sequence));
 
     data = PyDataMem_NEW(max_sites * sizeof(*data));
     if (data == NULL) {
